@@ -193,7 +193,10 @@ class Fn:
             m = 1 << bits
             v = ((v - lo) % m) + lo
             return lit(v)
-        return "(CSem.wrap%s %d %s)" % ("S" if signed else "U", bits, self.atom(term))
+        # written out (rather than CSem.wrapU / wrapS) so that `omega` and `rw` see the arithmetic as it is
+        if signed:
+            return "((%s + %d) %% %d - %d)" % (self.atom(term), 1 << (bits - 1), 1 << bits, 1 << (bits - 1))
+        return "(%s %% %d)" % (self.atom(term), 1 << bits)
 
     def site_name(self, what):
         self.site += 1
